@@ -99,7 +99,7 @@ def main():
     if T == "quick":
         sizes, maxmem = (1, 3), 3
     else:
-        sizes, maxmem = (1, 2, 3, 8), 4
+        sizes, maxmem = (1, 2, 3, 8), 5
     for kind in ("vec", "buf"):
         for siz in sizes:
             for mem in range(0, maxmem + 1):
